@@ -286,6 +286,9 @@ func VerifC18RoundTrip() {
 		if vKnown("C18-R4", strings.HasPrefix(diff, "definition: allOf members")) {
 			return
 		}
+		if vKnown("C18-R5", len(in.Properties) > 0 && diff == "definition: additionalProperties schema present on one side only") {
+			return
+		}
 		vAssert(diff == "", c.name+" ("+c.desc+"): "+d+": "+diff)
 	}
 }
